@@ -156,6 +156,9 @@ def body_deletions(text, rules):
     for mt in re.finditer(r'(?<![\w:])::(indexmap|serde)::', m):
         dels.append((mt.start(), mt.end(), mt.group(1) + '::'))
         rules.append(('D4', f'::{mt.group(1)}:: -> {mt.group(1)}::', ''))
+    for mt in re.finditer(r'(?<![\w:])::std::fs::', m):
+        dels.append((mt.start(), mt.end(), 'fs::'))
+        rules.append(('D4', '::std::fs:: -> fs::', ''))
     dels.sort(key=lambda d: (d[0], d[1]))
     return dels
 
